@@ -360,6 +360,51 @@ def check_maps(res, facts):
             (rule.bad if probs else rule.ok)(key, "; ".join(probs[:3]) if probs else "x1 = -(J/K) (RFC 9380 6.7.1 step 2), x2 = 0", f.loc)
 
 
+def check_mapsign(res, facts):
+    """sign of y: SWU: sgn0(y) == sgn0(u);  Elligator 2: sgn0(y) == 1 on the square arm, 0 otherwise (enumeration of
+    the parity / is_qr outcomes, observing whether y is negated after the parity test)"""
+    from arklib import pathsim as PS
+    rule = res.rule("R-MAPSIGN", "sign convention of the maps: SWU sgn0(y) = sgn0(u); Elligator 2 sgn0(y) = [g(x1) square]", 2)
+    for tag, label in (("swu", "SWUMap"), ("elligator2", "Elligator2Map")):
+        fs = [f for f in facts.fns(unit="ws", crate="ark_ec") if f.name == "map_to_curve" and f.kind != "Closure" and "curve_maps::" + tag in f.id]
+        key = "ark_ec|%s::map_to_curve|sign" % label
+        if not fs:
+            rule.bad(key, "anchor missing")
+            continue
+        f = fs[0]
+        table = {}
+        for par_y in (False, True):
+            for other in (False, True):
+                def oracle(st, bb, t, par_y=par_y, other=other):
+                    n = t["f"].get("name")
+                    if n == "parity":
+                        k = sum(1 for _, tt in st.calls if tt["f"].get("name") == "parity")
+                        # the call being answered is already in st.calls
+                        return par_y if k == 1 else other
+                    if n == "is_qr":
+                        return other if tag == "elligator2" else PS.UNKNOWN
+                    if n == "is_zero":
+                        return False
+                    if n == "is_on_curve":
+                        return True
+                    return PS.UNKNOWN
+                negs = set()
+                for st, e in PS.explore(f, oracle, max_states=600):
+                    if e != "return":
+                        continue
+                    names = [tt["f"].get("name") for _, tt in st.calls]
+                    if "parity" not in names:
+                        continue
+                    last = max(i for i, n in enumerate(names) if n == "parity")
+                    negs.add("neg" in names[last + 1:])
+                table[(par_y, other)] = negs
+        want = {(a, b): {a != b} for a in (False, True) for b in (False, True)}
+        if table == want:
+            rule.ok(key, "y is negated exactly when sgn0(y) differs from %s" % ("sgn0(u)" if tag == "swu" else "[g(x1) is a square]"), f.loc)
+        else:
+            rule.bad(key, "negation table (sgn0(y), %s) -> negated is %s; the specification negates exactly when the two differ" % ("sgn0(u)" if tag == "swu" else "g(x1) square", {k: sorted(v) for k, v in table.items()}), f.loc)
+
+
 def check_xmd(res, facts):
     rule = res.rule("R-XMD", "expand_message_xmd / DST construction feed the hash in the order of RFC 9380 5.3.1 / 5.3.3", 3)
     fns = {}
@@ -566,6 +611,7 @@ def run(ctx, res):
     check_sgn0(res, facts)
     check_cleared(res, facts)
     check_maps(res, facts)
+    check_mapsign(res, facts)
     return {
         "level": "other",
         "explanation": "Ordering / provenance rules over the MIR of the message expander, hash_to_field and the hash-to-curve wrapper: each hash `update` argument is abstracted to its provenance (Z_pad, message, length, counter, DST', b_0, xor) and the sequence between finalisations compared with RFC 9380; length and slicing expressions are checked by dataflow; the final result is shown to pass cofactor clearing. Equality with an independent RFC implementation on concrete messages (needs SHA-2) and that the SWU / Elligator / isogeny maps land on the curve for every field element are NOT decided here (map constants: C16).",
